@@ -24,15 +24,17 @@ import (
 type VerifierCircuit struct {
 	PublicInputs []gl.Variable `gnark:",public"`
 	Proof        variables.Proof
-	VerifierData variables.VerifierOnlyCircuitData
+	// The inner circuit's verifier key is fixed when the circuit is built, it is not a prover input.
+	VerifierData variables.VerifierOnlyCircuitData `gnark:"-"`
 
 	// This is configuration for the circuit, it is a constant not a variable
 	CommonCircuitData types.CommonCircuitData `gnark:"-"`
 }
 
+// The inner circuit's verifier key (VerifierData) is fixed when the circuit is built, it is not a prover input.
 type CircuitFixed struct {
-	PublicInputs      [4]frontend.Variable `gnark:",public"`
-	VerifierData      variables.VerifierOnlyCircuitData
+	PublicInputs      [4]frontend.Variable              `gnark:",public"`
+	VerifierData      variables.VerifierOnlyCircuitData `gnark:"-"`
 	ProofWithPis      variables.ProofWithPublicInputs
 	CommonCircuitData types.CommonCircuitData `gnark:"-"`
 }
